@@ -3,7 +3,7 @@
    Proofs.FieldProofs, followed by Print Assumptions. *)
 From Coq Require Import ZArith Znumtheory Lia.
 Require Import Model.Base Model.Field Model.Ir Model.Propagate Model.FieldDispatch Model.FieldPow.
-Require Import Spec.FieldSpec Spec.DispatchSpec Proofs.FieldProofs Proofs.DispatchProofs Proofs.DispatchLoop Proofs.FieldPowProofs Proofs.FieldLaws.
+Require Import Spec.FieldSpec Spec.DispatchSpec Proofs.FieldProofs Proofs.DispatchProofs Proofs.DispatchLoop Proofs.FieldPowProofs Proofs.FieldLaws Proofs.FieldShiftLaws.
 Local Open Scope Z_scope.
 
 (* every operation except division: the mirror computes the documented value;
@@ -284,11 +284,25 @@ Theorem C16_bitwise_laws : forall a b p, 0 < p ->
 Proof. exact bitwise_laws. Qed.
 Print Assumptions C16_bitwise_laws.
 
+(* "shifts by more than p/2 shift the other way": for every modulus and EVERY left operand,
+   a count r above p/2 makes `<<` the `>>` by p - r and `>>` the `<<` by p - r - the two
+   functions are mirror images of each other, whatever the direct shifts compute; and a
+   right shift by nothing returns its operand *)
+Theorem C16_shift_mirror : forall l r p, 0 < p -> Z.quot p 2 < r <= p ->
+  shift_l l r p = shift_r l (p - r) p /\ shift_r l r p = shift_l l (p - r) p.
+Proof. exact shift_mirror. Qed.
+Print Assumptions C16_shift_mirror.
+
+Theorem C16_shift_r_zero : forall l p, 0 < p -> shift_r l 0 p = Ok l.
+Proof. exact shift_r_zero. Qed.
+Print Assumptions C16_shift_r_zero.
+
 (* non-vacuity: p = 7, where 5 is the signed representative -2, and 4 is -3, so 4 < 5 < 3 *)
 Example C16_laws_witnesses :
   prime 7 /\ div 3 5 7 = Ok 2 /\ mul 2 5 7 = 3 /\ div (mul 3 5 7) 5 7 = Ok 3 /\
   lesser 5 3 7 = 1 /\ lesser 3 4 7 = 0 /\ greater 3 4 7 = 1 /\ eq 3 4 7 = 0 /\
-  add (-9) 30 7 = 0 /\ sub 2 5 7 = 4 /\ add 2 (prefix_sub 5 7) 7 = 4.
+  add (-9) 30 7 = 0 /\ sub 2 5 7 = 4 /\ add 2 (prefix_sub 5 7) 7 = 4 /\
+  shift_l 5 6 7 = Ok 2 /\ shift_r 5 1 7 = Ok 2 /\ shift_r 3 5 7 = Ok 4 /\ shift_l 3 2 7 = Ok 4.
 Proof.
   split; [|vm_compute; repeat split; reflexivity].
   apply prime_intro; [lia|]. intros n Hn.
